@@ -493,7 +493,8 @@ def stop_yield_injection(st):
 def aggregate(agg, plan_, tier, seed):
     by_case = {}
     for r in agg["obs"]:
-        by_case.setdefault(r["case"], []).append(r)
+        if "case" in r:  # (other observations - the W-suite's pytest summary - are not digests)
+            by_case.setdefault(r["case"], []).append(r)
     batch = None
     groups = 0
     for cid, recs in by_case.items():
